@@ -174,6 +174,9 @@ let dispatch name =
   | "surface_interpolate" -> let tol = rq () in let bu = rbasis () in let bv = rbasis () in let us = rqlist () in let vs = rqlist () in
     let x = rlist rqlist in pres (fun o -> plist pqlist o.Obj.o_cps) (Exec.q_surface_interpolate tol bu bv us vs x)
   | "obj_section" -> let o = robj () in let sels = rnatlist () in pobj (Exec.q_obj_section o sels)
+  | "basis_integrate" -> let tol = rq () in let b = rbasis () in let t0 = rq () in let t1 = rq () in
+    pqlist (Exec.q_basis_integrate tol b t0 t1)
+  | "obj_center" -> let tol = rq () in let o = robj () in pqlist (Exec.q_obj_center tol o)
   | _ -> out ("UNKNOWN " ^ name)
 
 let () =
